@@ -91,6 +91,9 @@ def gen_cases(tier: str, seed: int):
     for scen in ("replace_table", "alter_add", "alter_drop", "use_schema", "qmark_types", "view_replaced", "other_cursor_replaces"):
         for read_between in (True, False):
             yield {"part": "S", "scenario": scen, "read_between": read_between}
+    for prev in ("none", "select", "update", "fetched"):
+        for style in ("pyformat", "qmark"):
+            yield {"part": "N", "prev": prev, "style": style}
     for q in ("select a, random(99) as r from people2", "select random(7)", "select id from people sample (50) seed (3)"):
         yield {"part": "B3", "sql": q}
     # parametrised statements: description after bound-parameter execution
@@ -195,6 +198,8 @@ def run_case(case: dict, env: core.Env) -> None:
         return _part_s(case, env)
     if part == "B3":
         return _part_b3(case, env)
+    if part == "N":
+        return _part_n(case, env)
     return _part_p(case, env)
 
 
@@ -436,6 +441,42 @@ def _part_s(case: dict, env: core.Env) -> None:
         if [tuple(x) for x in fresh.description] != d["desc"]:
             env.witness(f"C06/stale-description/same-text-re-executed/{scen}", f"{sql}: {d['desc']} but a fresh cursor reports {[tuple(x) for x in fresh.description]}")
         env.nontrivial(("S", scen, case["read_between"]))
+    finally:
+        fs.duck_conn.close()
+
+
+def _part_n(case: dict, env: core.Env) -> None:
+    """A statement no-op'd by nop_regexes is a statement like any other for description."""
+    import snowflake.connector
+
+    saved = snowflake.connector.paramstyle
+    snowflake.connector.paramstyle = case["style"]
+    try:
+        fs = core.new_fs(nop_regexes=[r"^CALL\b"])
+        conn = zoo.build_fixture(fs)
+    finally:
+        snowflake.connector.paramstyle = saved
+    try:
+        cur = conn.cursor(core.DictCursor)
+        if case["prev"] == "select":
+            cur.execute("SELECT ID, NAME, AGE, SCORE FROM PEOPLE")
+        elif case["prev"] == "update":
+            cur.execute("UPDATE PEOPLE SET AGE = 1 WHERE ID = 1")
+        elif case["prev"] == "fetched":
+            cur.execute("SELECT ID, NAME FROM PEOPLE")
+            cur.fetchone()
+        o = core.run_stmt(cur, "CALL my_proc(1)")
+        if not o["ok"]:
+            env.count("zoo_statement_rejected")
+            return
+        env.count("cmp_readable")
+        d = core.read_description(cur)
+        if not d["ok"]:
+            env.witness(f"C06/description-raises/after-nop-statement/prev={case['prev']}/{d['exc']['cls']}", str(d["exc"])[:300])
+            return
+        if d["names"] != ["status"] or (o["rows"] and list(o["rows"][0].keys()) != d["names"]):
+            env.witness(f"C06/stale-description/after-nop-statement/prev={case['prev']}", f"description {d['names']} rows {o['rows']}")
+        env.nontrivial(("N", case["prev"], case["style"]))
     finally:
         fs.duck_conn.close()
 
